@@ -8,7 +8,7 @@ KEYS = ["HistoryManager.__call__", "HistoryManager.reset", "HistoryManager.size"
         "Model.__enter__", "Model.__exit__", "add_cons_vars_to_problem", "remove_cons_vars_from_problem",
         "remove_cons_vars_from_problem.restore_columns"]
 # the objective: set_objective, its nested undo function, the two setters built on it (own hook table: ghost model of the objective)
-OBJECTIVE_KEYS = ["set_objective", "set_objective.reset", "Model.objective@setter", "Reaction.objective_coefficient@setter"]
+OBJECTIVE_KEYS = ["set_objective", "set_objective.reset", "_valid_atoms", "Model.objective@setter", "Reaction.objective_coefficient@setter"]
 
 
 def run(rep):
@@ -41,8 +41,8 @@ def run(rep):
         "solver; the recorded variables are different. NOT covered deductively: lists / tuples / sets of several objects in `what` (the "
         "engine keeps lists of (object, dict) tuples only with a concrete length), more than two recorded columns, and what "
         "solver.add / solver.remove themselves do to the matrix (trace events here): bounded driver. "
-        "OBJECTIVE AND DIRECTION (util.solver.set_objective, its nested undo function reset, Model.objective setter, "
-        "Reaction.objective_coefficient setter), over a ghost model of the optlang objective - an Objective object has an opaque "
+        "OBJECTIVE AND DIRECTION (util.solver.set_objective, its nested undo function reset, its helper _valid_atoms, "
+        "Model.objective setter, Reaction.objective_coefficient setter), over a ghost model of the optlang objective - an Objective object has an opaque "
         "immutable `expression` and a `direction`, `solver.objective = X` installs that very object, lin(expression) is its "
         "coefficient map (the ghost objc of C05), all ASSUMED contracts of optlang: set_objective is proved, for a dictionary "
         "{reaction: coefficient} (ints or finite floats, any number of entries, loop invariant over the ghost enumeration of "
@@ -51,7 +51,8 @@ def run(rep):
         "else, when additive to overwrite exactly those coefficients of the installed objective in place and to leave every other "
         "coefficient and the direction untouched; on a non-linear objective to raise ValueError with nothing changed; for an optlang "
         "Objective to install that very objective (a clone into the model's solver - opaque - when it uses foreign variables, "
-        "direction kept), for a sympy expression a new objective with that expression and the CURRENT direction, additively the "
+        "direction kept; the helper _valid_atoms is proved to return `every optlang Variable occurring in the expression belongs "
+        "to the model's solver` over the assumed views expression.atoms(Variable) and variable.problem), for a sympy expression a new objective with that expression and the CURRENT direction, additively the "
         "installed objective gets add(old expression, that expression) in place and keeps its direction; for any other type (int, "
         "str, None) to raise TypeError with nothing changed. Context: without a context nothing is registered; in a context "
         "EXACTLY ONE undo is registered, in the innermost context, AFTER the change (the solver objective recorded at the moment of "
@@ -68,8 +69,8 @@ def run(rep):
         "TypeError from get_by_any propagate), no call then. Reaction.objective_coefficient setter: exactly the call "
         "set_objective(self.model, {self: value}, additive=True) for a reaction in a model, AttributeError and no call for a "
         "detached one. Preconditions stated, not proved: every listed reaction is in a model, different reactions have different "
-        "solver variables and no forward variable is a reverse variable, coefficients are finite. Assumed, not verified: the "
-        "two-line helper _valid_atoms (opaque predicate), optlang's behaviour as modelled, what add() / clone do to an expression "
+        "solver variables and no forward variable is a reverse variable, coefficients are finite. Assumed, not verified: "
+        "optlang's behaviour as modelled, what add() / clone do to an expression "
         "(uninterpreted), lists of reactions as Model.objective value. That each OTHER context-aware "
         "operation registers a "
         "correct undo, and that undos compose over whole histories and nestings, is NOT proved: bounded driver (full observable "
@@ -85,7 +86,7 @@ def run(rep):
                  "builds a new objective with exactly these; Objective.set_linear_coefficients overwrites exactly the given "
                  "coefficients of lin(expression) and keeps linearity; `objective += e` gives add(expression, e) in place; "
                  "Objective.clone keeps the direction; Zero has no coefficient; objective.is_Linear reads is_lin(expression)",
-                 "cobra helpers assumed in the objective contracts: util.solver._valid_atoms (opaque predicate), "
+                 "assumed in the objective contracts: sympy expression.atoms(Variable) / optlang variable.problem as ghost views, "
                  "DictList.get_by_any for one int / str / member item, Reaction.forward_variable / reverse_variable (C01), "
                  "injectivity of reaction -> (forward, reverse) variable (precondition)"])
 
